@@ -359,6 +359,60 @@ def _order_case(rng):
     return case
 
 
+FRACTIONS = (0.5, 0.25, 1e-3, 1e-6, 1e-9, "ulp+", "ulp-")
+
+
+def _near_integer(rng, frac=None):
+    """(float, is it integral) - a float of magnitude 1e0 .. 1e7 that is an integer plus / minus a
+    fractional part from 0.5 down to one unit in the last place.  Whether the float IS an integer is
+    decided on the float itself (exactly), never by a tolerance: a step is integral or it is not."""
+    import math
+    k = rng.randint(0, 7)
+    n = rng.randint(1, 9) * 10 ** k + (rng.randint(0, 10 ** k - 1) if k and rng.random() < 0.5 else 0)
+    if rng.random() < 0.25:
+        n = -n
+    frac = rng.choice(FRACTIONS) if frac is None else frac
+    if frac == "ulp+":
+        x = math.nextafter(float(n), math.inf)
+    elif frac == "ulp-":
+        x = math.nextafter(float(n), -math.inf)
+    else:
+        x = n + (frac if rng.random() < 0.7 else -frac)
+    return x, x == math.floor(x)
+
+
+def _float_boundary_case(rng):
+    """Float-valued horizons around the integrality boundary: one element that is a fraction away
+    from an integer (0.5 .. 1 ulp, at magnitudes 1e0 .. 1e7) among integral floats / ints, as a list
+    or a float64 array, relative or absolute, through the constructor or check_fh; plus the
+    all-integral controls of the same magnitudes (accepted, stored as the integers)."""
+    control = rng.random() < 0.2
+    others = rng.sample(range(-9, 10), rng.choice([0, 1, 1, 2, 3]))
+    if control:
+        k = rng.randint(0, 7)
+        x, integral = float(rng.randint(1, 9) * 10 ** k + 11), True
+    else:
+        x, integral = _near_integer(rng)
+    cont = rng.choice(["list", "list", "array"])
+    vals = [["f", float(v)] if (cont == "array" or rng.random() < 0.6) else ["i", v] for v in others]
+    vals.insert(rng.randrange(len(vals) + 1), ["f", x])
+    steps = sorted(set(others + ([int(x)] if integral else [])))
+    ok = integral and int(x) not in others
+    case = {"container": cont, "values": vals}
+    if cont == "array":
+        case["dtype"] = "float64"
+    rel = rng.random() < 0.5
+    case.update(_common(rng, steps, rel))
+    why = "valid" if ok else ("fractional" if not integral else "duplicate-after-coercion")
+    if rng.random() < 0.6:
+        case["kind"] = "fh" if ok else "malformed"
+        case["why"] = why
+    else:
+        case.update({"kind": "check_fh", "why": why, "raw": True, "enforce": rng.random() < 0.4,
+                     "rel": True})
+    return case
+
+
 def gen_cases(rng, tier):
     cases = []
     nv, nm, nc = (430, 150, 90) if tier == "quick" else (8000, 2000, 1000)
@@ -371,6 +425,24 @@ def gen_cases(rng, tier):
     # input order (after the older streams, which stay what they were)
     for _ in range(160 if tier == "quick" else 3000):
         cases.append(_order_case(rng))
+    # exactness of the float -> integer test (after the older streams)
+    for _ in range(150 if tier == "quick" else 3000):
+        cases.append(_float_boundary_case(rng))
+    for vals in ([50000.5], [1, 250000.75], [-100000.4, 1], [1.000001], [1, 2, 3.000002],
+                 [3.0000000000000004], [1e7 + 0.5, 2.0], [1.0, 1e7, 3.0]):
+        for cont in ("list", "array"):
+            for how in ("ctor", "check_fh"):
+                frac = any(float(v) != int(v) for v in vals)
+                c = {"container": cont, "values": [["f", float(v)] for v in vals],
+                     "why": "fractional" if frac else "valid"}
+                if cont == "array":
+                    c["dtype"] = "float64"
+                c.update(_common(rng, sorted(int(v) for v in vals if float(v) == int(v)), True))
+                if how == "ctor":
+                    c["kind"] = "malformed" if frac else "fh"
+                else:
+                    c.update({"kind": "check_fh", "raw": True, "enforce": False, "rel": True})
+                cases.append(c)
     for steps in ([1, 3, 2, 4], [1, 4, 2, 3, 5], [1, 2, 2, 4], [0, 2, 1, 1, 4], [-2, 0, -1, 1],
                   [3, 1, 2], [5, 9, 1, 8]):
         for cont in ("list", "array", "index"):
